@@ -383,7 +383,9 @@ def m_host_value_contradicts(rng, d):
     a = f"({int(m.group(1))}, {int(m.group(2))})"
     v = d["sensitive_hosts"][k]
     # relative offsets and absolute values (the default host value 0 is a contradiction too)
-    d["host_configurations"][a]["value"] = rng.choice([v + 1, v - 1, v + 0.5, v + 100, 0, 0.0, -v, 0, v * 2])
+    # ... and values that differ only a little (far more than the 1e-9 of math.isclose, though)
+    near = [float(v) * (1 + 4e-6), float(v) * (1 - 3e-6), float(v) + 2.0 ** -12]
+    d["host_configurations"][a]["value"] = rng.choice([v + 1, v - 1, v + 0.5, v + 100, 0, 0.0, -v, 0, v * 2] + near)
     return d
 
 
@@ -602,6 +604,17 @@ def run(ctx, spec):
         d = copy.deepcopy(doc)
         d.pop("step_limit", None)
         items.append((f"valid.no_step_limit@{name}", d))
+        # YAML anchors / aliases: a sensitive and a non-sensitive host share ONE configuration mapping (the dumper
+        # writes &id / *id for the shared Python object, the loader gets one dict for both hosts)
+        d = copy.deepcopy(doc)
+        sens_k = {str(eval(k)) for k in d["sensitive_hosts"]}
+        hk = list(d["host_configurations"])
+        ka = next((k for k in hk if str(eval(k)) in sens_k), None)
+        kb = next((k for k in hk if str(eval(k)) not in sens_k), None)
+        if ka is not None and kb is not None:
+            d["host_configurations"][ka].pop("value", None)
+            d["host_configurations"][kb] = d["host_configurations"][ka]
+            items.append((f"valid.aliased_host_configs@{name}", d))
         d = copy.deepcopy(doc)
         sens = {str(eval(k)) for k in d["sensitive_hosts"]}
         for a, h in d["host_configurations"].items():
